@@ -55,6 +55,7 @@ static void build(void) {
     /* children on stacks of a size that is not a page multiple, created and joined repeatedly (the block is recycled) next to suspended probe threads */
     /* small default stack (16 KiB) at start, children created and joined (their stacks are pooled), then the default is raised to 256 KiB */
     add(tier, 2, "CR", "Y", 0, 1, 1); P[tier][NP[tier] - 1].oddstack = 2; add(tier, 2, "CCR", "CR", 0, 2, 1); P[tier][NP[tier] - 1].oddstack = 2;
+    add(tier, 2, "X", "Y", 0, 2, 2); add(tier, 2, "XC", "X", 0, 2, tier ? 2 : 1); add(tier, 2, "X", "M", 0, 1, 1);
     add(tier, 2, "H", "Y", 0, 1, 1); add(tier, 2, "Hh", "YH", 0, 2, tier ? 2 : 1); add(tier, 2, "hH", "M", 0, 2, 1);
     add(tier, 2, "OOO", "Y", 0, 1, 1); add(tier, 2, "OO", "YO", 0, 2, tier ? 2 : 1); add(tier, 3, "OO", "M", "MO", 2, 1);
     /* K: a thread ends while holding a value under a key whose destructor yields (the final switch away happens after a
@@ -119,6 +120,16 @@ static void sw_raise_default(void * a) {
   myth_thread_t t; int rc = myth_create_ex(&t, &at, deep_child_body, a); MV_CHECK(rc == 0, "create_ex returned %d", rc);
   void * r; myth_join(t, &r); MV_CHECK(r == a, "deep child result wrong");
 }
+/* a child that is detached while it still runs, then another child is created and joined: the first one's stack must not be handed out or
+   released while it is in use */
+static volatile int det_done;
+static void * det_child_body(void * a) { void * r = child_body(a); __sync_fetch_and_add(&det_done, 1); return r; }
+static void sw_detach_then_create(void * a) {
+  int before = det_done;
+  myth_thread_t t = myth_create(det_child_body, a); myth_detach(t);
+  myth_thread_t t2 = myth_create(child_body, a); void * r; myth_join(t2, &r); MV_CHECK(r == a, "child created after a detach: result wrong");
+  while (det_done == before) mv_wait_until_changed(&det_done, sizeof(int));
+}
 static void sw_mutex(void * a) { (void)a; myth_mutex_lock(&mtx); myth_yield(); myth_mutex_unlock(&mtx); }
 static void sw_barrier(void * a) { (void)a; myth_barrier_wait(&bar); }
 static void sw_condwait(void * a) { (void)a; myth_mutex_lock(&cm); while (!cflag) myth_cond_wait(&cv, &cm); myth_mutex_unlock(&cm); }
@@ -150,7 +161,7 @@ static void do_op(int me, char op, int idx) {
   case 'w': fn = sw_condsig; kind = 5; break;        case 'U': fn = sw_uwait; kind = 6; break;
   case 'u': fn = sw_usig; kind = 6; break;           case 'K': fn = sw_keyed_child; kind = 1; break;
   case 'O': fn = sw_create_odd; kind = 1; break;           case 'H': fn = sw_create_hint_pf; kind = 2; break;
-  case 'h': fn = sw_create_hint; kind = 1; break;              case 'R': fn = sw_raise_default; kind = 1; break;
+  case 'h': fn = sw_create_hint; kind = 1; break;              case 'X': fn = sw_detach_then_create; kind = 1; break;              case 'R': fn = sw_raise_default; kind = 1; break;
   default: fn = sw_join_unfinished; kind = 7; break;
   }
   int w0 = mv_worker();
